@@ -81,6 +81,17 @@ CHECKS = {
                  "reaching ObtainQuantity and the internal constructor; repr order matches the (value, unit, category) overload.",
         "note": NOTE,
     },
+    "C20": {
+        "technique": "typestate abstract interpretation of the string-builder functions (region / last-token / exponent-sign / boolean locals, "
+                     "loop fixpoint over all abstract states); alphabet check of emitted separators and literals; def-use terms for the "
+                     "fields of simple quantities and the unit shown by repr/str",
+        "level": "All abstract states of the two builders are explored, so for any number of numerator and denominator factors and any "
+                 "exponents: every factor is preceded by a separator, sits on the correct side of the single '/', denominators render "
+                 "unsigned exponents, and only the grammar's separators are emitted; the strings of simple quantities are the registered "
+                 "category / quantity type / validated unit; repr/str show GetUnit() or the requested unit; the derived strings are built "
+                 "from every entry of the composing map.",
+        "note": NOTE,
+    },
 }
 
 NOT_APPLICABLE = {
